@@ -14,13 +14,13 @@ def ctx(off, ln):
 def match(off, ln, msg='msg'):
     return {'message': msg if msg.startswith('M') or 'message' not in spec else spec['message'], 'offset': off, 'length': ln, 'context': ctx(off, ln),
             'replacements': [{'value': v} for v in spec.get('suggestions', ['x'])],
-            'rule': {'id': spec.get('rule', 'RULE'), 'category': {'name': 'Cat'}}}
+            'rule': {'id': spec.get('rule', 'RULE'), 'subId': '1', 'category': {'name': 'Cat'}, 'urls': [{'value': 'http://example.invalid/r'}]}}
 if 'raw' in spec:
     sys.stdout.write(spec['raw'])
     sys.exit(0)
 ms = []
 for w in spec.get('flag_words', []):
-    for m in re.finditer(re.escape(w) + r'(?![a-z])', plain):
+    for m in re.finditer(re.escape(w) + r'(?![a-zäöüß])', plain):
         ms.append(match(m.start(), len(w), 'flag ' + w))
 for i, (o, l) in enumerate(spec.get('spans', [])):
     ms.append(match(o, l, (spec.get('span_msgs') or {}).get(str(i), 'M%d' % i)))
